@@ -22,6 +22,17 @@ using namespace rime;
 
 void rime_declare_module_dependencies();
 
+// copies a string into a caller-supplied buffer of buffer_size bytes,
+// truncating if necessary; the result is always null-terminated.
+static void copy_string_to_buffer(char* dest,
+                                  const string& src,
+                                  size_t buffer_size) {
+  if (!dest || buffer_size == 0)
+    return;
+  strncpy(dest, src.c_str(), buffer_size - 1);
+  dest[buffer_size - 1] = '\0';
+}
+
 RIME_DEPRECATED void RimeSetup(RimeTraits* traits) {
   rime_declare_module_dependencies();
 
@@ -464,7 +475,7 @@ RIME_DEPRECATED Bool RimeGetProperty(RimeSessionId session_id,
   string str_value(ctx->get_property(prop));
   if (str_value.empty())
     return False;
-  strncpy(value, str_value.c_str(), buffer_size);
+  copy_string_to_buffer(value, str_value, buffer_size);
   return True;
 }
 
@@ -529,7 +540,7 @@ RIME_DEPRECATED Bool RimeGetCurrentSchema(RimeSessionId session_id,
   Schema* schema = session->schema();
   if (!schema)
     return False;
-  strncpy(schema_id, schema->schema_id().c_str(), buffer_size);
+  copy_string_to_buffer(schema_id, schema->schema_id(), buffer_size);
   return True;
 }
 
@@ -626,7 +637,7 @@ RIME_DEPRECATED Bool RimeConfigGetString(RimeConfig* config,
     return False;
   string str_value;
   if (c->GetString(key, &str_value)) {
-    std::strncpy(value, str_value.c_str(), buffer_size);
+    copy_string_to_buffer(value, str_value, buffer_size);
     return True;
   }
   return False;
@@ -828,7 +839,7 @@ RIME_DEPRECATED const char* RimeGetUserId() {
 RIME_DEPRECATED void RimeGetUserDataSyncDir(char* dir, size_t buffer_size) {
   Deployer& deployer(Service::instance().deployer());
   string string_path = deployer.user_data_sync_dir().string();
-  strncpy(dir, string_path.c_str(), buffer_size);
+  copy_string_to_buffer(dir, string_path, buffer_size);
 }
 
 RIME_DEPRECATED Bool RimeConfigInit(RimeConfig* config) {
